@@ -164,8 +164,12 @@ def mutate(text, rnd):
     return ' '.join(toks) + '\n'
 
 def antlr_errors(path):
-    """the grammar's own verdict: number of lexer + parser errors, the unmodified generated parser with counting listeners"""
-    from antlr4 import FileStream, CommonTokenStream
+    """the grammar's own verdict: (number of lexer + parser errors reported to counting listeners by the unmodified
+    generated parser, the files it includes, trailing) — `trailing`: the start rule `mal: declaration+ | EOF` returned
+    without an error but the next token of the stream is not EOF (the rule has no EOF after the declarations, so the
+    parser stops silently at the first token that cannot start a declaration; text behind that token is not even
+    lexed).  The file conforms to the grammar as a whole iff errors == 0 and not trailing."""
+    from antlr4 import FileStream, CommonTokenStream, Token
     from antlr4.error.ErrorListener import ErrorListener
     from maltoolbox.language.compiler.mal_lexer import malLexer
     from maltoolbox.language.compiler.mal_parser import malParser
@@ -174,10 +178,41 @@ def antlr_errors(path):
         def syntaxError(self, *a): self.n += 1
     c = Count()
     lx = malLexer(FileStream(path, encoding='utf-8')); lx.removeErrorListeners(); lx.addErrorListener(c)
-    ps = malParser(CommonTokenStream(lx)); ps.removeErrorListeners(); ps.addErrorListener(c)
+    stream = CommonTokenStream(lx)
+    ps = malParser(stream); ps.removeErrorListeners(); ps.addErrorListener(c)
     tree = ps.mal()
-    includes = [d.getChild(0).STRING().getText().strip('"') for d in tree.declaration() if d.getChild(0).getRuleIndex() == malParser.RULE_include] if c.n == 0 else []
-    return c.n, includes
+    n = c.n
+    trailing = n == 0 and stream.LA(1) != Token.EOF
+    includes = [d.getChild(0).STRING().getText().strip('"') for d in tree.declaration() if d.getChild(0).getRuleIndex() == malParser.RULE_include] if n == 0 else []
+    return n, includes, trailing
+
+# ---- trailing input: the defect class repaired by e0054c2 (start rule without EOF) -------------------------------
+STARTERS = {'include', '#', 'category', 'associations'}
+LEGAL = ['*', ')', '(', '{', '}', ',', '.', '->', '+>', '<-', '<--', '-->', 'x', 'Asset1', '[', ']', '\\/', '/\\', '-', '+', '/', '^',
+         '"s"', '3', '0.5', '..', '&', '|', '!E', 'E', 'C', 'I', 'A', '@', '=', ':', 'let', 'asset', 'abstract', 'extends', 'info',
+         'include', '#', 'category', 'associations']
+MISSPELT = ['asociations', 'associaton', 'Associations', 'assocations', 'categry', 'Category', 'categories', 'includes', 'Include', 'define']
+def trailing_input(text, rnd, kind=None):
+    """a valid text followed by input that `parser.mal()` does not consume: returns (kind, mutated text).
+    surplus: a surplus `}`;  misspelt: a misspelt top-level keyword with a (well-formed) block;  tokens: arbitrary legal
+    tokens, the first of which cannot start a declaration;  lexerror: a lexical error behind a token at which the parser
+    stops (the erroneous text is never fetched by the on-demand token stream)"""
+    kind = kind or rnd.choice(['surplus', 'misspelt', 'tokens', 'lexerror'])
+    body = text.rstrip('\n')
+    sep = rnd.choice([' ', '\n', '\n\n', ' /* c */ ', '\n// comment\n'])
+    if kind == 'surplus':
+        tail = '}' + rnd.choice(['', '\n', ' }', '\n#extra: "value"', '\ncategory Later { }'])
+    elif kind == 'misspelt':
+        kw = rnd.choice(MISSPELT)
+        blk = rnd.choice(['{ }', '{ Asset1 [a] * <-- L --> * [b] Asset1 }', 'Name { asset X { | s } }', '"file.mal"', 'k: "v"'])
+        tail = f'{kw} {blk}' + rnd.choice(['', '\n', '\n#extra: "value"'])
+    elif kind == 'tokens':
+        first = rnd.choice([t for t in LEGAL if t not in STARTERS])
+        tail = ' '.join([first] + [rnd.choice(LEGAL) for _ in range(rnd.randint(0, 6))])
+    else:
+        stop = rnd.choice(['"x" y', '}', 'x', ') (', '3', 'asociations {'])
+        tail = stop + ' ' + rnd.choice(['"', '$', '~ z', '"unterminated', '%', '?', '!', '<', '\\'])
+    return kind, body + sep + tail + rnd.choice(['', '\n'])
 
 def real_tokens(path):
     from antlr4 import FileStream, Token
